@@ -3,6 +3,7 @@
 package middleware
 
 import (
+	"fmt"
 	"context"
 	"errors"
 	"strconv"
@@ -70,6 +71,10 @@ func c12Run(maxMaxRetries int, symbolicIntervals bool) {
 	var lastOut []*message.Message
 	var lastErr error
 	attemptErrs := []error{errors.New("failure a"), errors.New("failure b"), errors.New("failure c")}
+	if vrt.Bool("handler.errors.are.context.errors") {
+		// the handler's own backend timed out / was cancelled: that says nothing about the message's context
+		attemptErrs = []error{fmt.Errorf("backend: %w", context.DeadlineExceeded), context.Canceled, fmt.Errorf("backend: %w", context.Canceled)}
+	}
 	h := func(m *message.Message) ([]*message.Message, error) {
 		calls++
 		stamps = append(stamps, time.Now())
